@@ -131,7 +131,9 @@ pub fn create_raw_dict_from_source<R: io::Read, W: io::Write>(
     dict_size: usize,
 ) {
     if source_size < 16 {
-        let mut source = source;
+        // The source is too small to be sampled, it is used as the dictionary as it is,
+        // up to the requested size
+        let mut source = source.take(dict_size as u64);
         let mut buf = vec![];
         source
             .read_to_end(&mut buf)
@@ -166,6 +168,8 @@ pub fn create_raw_dict_from_source<R: io::Read, W: io::Write>(
     // Reverse is used because we want a min heap, where
     // the lowest scoring items come first
     let mut pool: BinaryHeap<Reverse<Segment>> = BinaryHeap::new();
+    // The number of bytes held by the segments in `pool`
+    let mut pool_size: usize = 0;
     let (_, epoch_size) = compute_epoch_info(&params, dict_size, source_size / K);
     let num_epochs = source_size / epoch_size;
     vprintln!("create_dict: computed epoch info, using {num_epochs} epochs of {epoch_size} bytes");
@@ -188,7 +192,18 @@ pub fn create_raw_dict_from_source<R: io::Read, W: io::Write>(
             "\tcreate_dict: epoch {epoch_counter}/{num_epochs} has best segment score {}",
             best_segment.score
         );
+        pool_size += best_segment.raw.len();
         pool.push(Reverse(best_segment));
+        // The dictionary must not outgrow `dict_size`: drop the lowest scoring
+        // segments as long as the remaining ones still fill the dictionary
+        while let Some(Reverse(lowest)) = pool.peek() {
+            let lowest_len = lowest.raw.len();
+            if pool_size - lowest_len < dict_size {
+                break;
+            }
+            pool_size -= lowest_len;
+            pool.pop();
+        }
         // Wipe frequency list for next epoch
         ctx.frequencies.clear();
     }
@@ -198,9 +213,15 @@ pub fn create_raw_dict_from_source<R: io::Read, W: io::Write>(
     );
     // Write the dictionary with the highest scoring segment last because
     // closer items can be represented with a smaller offset
+    //
+    // If the pool is still larger than `dict_size` the excess is cut off the front,
+    // where the lowest scoring segment is
+    let mut excess = pool_size.saturating_sub(dict_size);
     while let Some(segment) = pool.pop() {
+        let skip = usize::min(excess, segment.0.raw.len());
+        excess -= skip;
         output
-            .write_all(&segment.0.raw)
+            .write_all(&segment.0.raw[skip..])
             .expect("can write to output");
     }
 }
